@@ -1193,11 +1193,14 @@ def u_lerax2gym(ctx):
         if m is not None:
             ctx.violation("adapter-reset-obs-not-of-returned-state", dict(det0, mismatch=m))
         ends, want_ends = [], ctx.n(24, 80)
+        held = [(obs, np.array(obs, copy=True), "reset")]  # what a caller that keeps the returned arrays holds
         i = 0
         while len(ends) < want_ends and i < ctx.n(1500, 6000):
             state = g.state
             a = rig.any_action("const0" if mode == "corner" else "random")  # constant push ends CartPole episodes soon
             obs, r, term, trunc, _ = g.step(np.asarray(a))
+            if len(held) < 400:
+                held.append((obs, np.array(obs, copy=True), f"step {i}"))
             ns = g.state
             c = rig.comps(env, state, a, ns)
             c_term, c_trunc = bool(c["term"]), bool(c["trunc"])
@@ -1227,6 +1230,13 @@ def u_lerax2gym(ctx):
                     ctx.violation("adapter-ending-step-obs-not-of-returned-state", dict(det, mismatch=m))
                 ends.append(digest(np.asarray(rig.fp(_state_layers(ns)[-1]))))
             i += 1
+        # the observation handed out with a state stays that state's observation: later calls must not write into it
+        ctx.monitor("adapter_returned_observations_rechecked_later", len(held))
+        for arr, snap, when in held:
+            if not np.array_equal(np.asarray(arr), snap, equal_nan=True):
+                ctx.violation("adapter-returned-observation-overwritten-by-a-later-call",
+                              rig.where(returned_by=when, value_when_returned=snap, value_now=np.asarray(arr)))
+                break
         if len(ends) >= 16:
             rig._judge_distinct(ends, "adapter-auto-reset-states-not-freshly-drawn",
                                 "states LeraxToGymEnv restarts from at successive episode ends (no explicit reset)")
